@@ -672,6 +672,11 @@ func (e *Env) evalCall(n *ECall) SVal {
 			}
 		}
 		return SVal{T: c.bytesContent(e.cur, arg(0).T), Type: types.Typ[types.String]}
+	case "bytechar":
+		// bytechar(b): the one-byte string holding byte b (content of []byte{b})
+		need(1)
+		c.declareFun("gbytes.str", []Sort{ArrSort(SInt, SInt), SInt, SInt}, SStr)
+		return SVal{T: app(SStr, "gstr.fromByte", arg(0).T), Type: types.Typ[types.String]}
 	case "bigenc":
 		need(1)
 		c.declareFun("big.enc", []Sort{SInt}, SStr)
@@ -829,6 +834,10 @@ func (e *Env) evalCall(n *ECall) SVal {
 			return e.errf("typeis: unknown type %q", tyname)
 		}
 		c.declareFun("itag", []Sort{SInt}, SInt)
+		if _, isIface := t.Underlying().(*types.Interface); isIface {
+			// typeis(x, I) for an interface type I: the dynamic type of x implements I (what x.(I) tests)
+			return SVal{T: c.implementsTerm(x.T, t)}
+		}
 		return SVal{T: mk(SBool, fmt.Sprintf("(and (not (= %s 0)) (= (itag %s) %s))", x.T.S, x.T.S, c.typeTag(t).S))}
 	case "as":
 		// as(x, "T"): the value held by interface x, viewed as concrete type T (meaningful when typeis(x, "T"))
